@@ -77,6 +77,31 @@ func payload(kind, placement string, version interface{}, iss, sub string) strin
 			nats["issuer_account"] = payloadIssuerAccount
 		}
 	}
+	if payloadRich {
+		// (what a claim of the kind really carries: a loader that looks at the content before it looks at the version must
+		// still refuse the version)
+		switch kind {
+		case "account":
+			nats["limits"] = map[string]interface{}{"subs": -1, "data": -1, "payload": -1, "imports": -1, "exports": -1, "wildcards": true, "conn": -1, "leaf": -1,
+				"mem_storage": 1024, "disk_storage": 1024, "tiered_limits": map[string]interface{}{"R1": map[string]interface{}{"disk_storage": 5}, "R3": map[string]interface{}{"mem_storage": 7}}}
+			nats["exports"] = []interface{}{map[string]interface{}{"name": "e", "subject": "e.>", "type": "stream"}}
+			nats["signing_keys"] = []interface{}{sub}
+			nats["mappings"] = map[string]interface{}{"m.a": []interface{}{map[string]interface{}{"subject": "m.b", "weight": 50}}}
+		case "user":
+			nats["pub"] = map[string]interface{}{"allow": []string{"a.>"}}
+			nats["subs"], nats["data"], nats["payload"] = 5, -1, -1
+			nats["src"] = []string{"10.0.0.0/8"}
+			nats["bearer_token"] = true
+		case "operator":
+			nats["signing_keys"] = []string{iss}
+			nats["operator_service_urls"] = []string{"nats://localhost:4222"}
+			nats["system_account"] = sub
+			nats["strict_signing_key_usage"] = true
+		case "activation":
+			nats["subject"], nats["kind"] = "granted.>", "stream"
+		}
+		nats["tags"] = []string{"rich"}
+	}
 	m["nats"] = nats
 	b, err := json.Marshal(m)
 	if err != nil {
@@ -84,6 +109,9 @@ func payload(kind, placement string, version interface{}, iss, sub string) strin
 	}
 	return string(b)
 }
+
+// payloadRich: when set, payload() fills the nats section with what a claim of the kind carries
+var payloadRich bool
 
 // payloadIssuerAccount: when set, payload() names this issuer account
 var payloadIssuerAccount string
@@ -239,6 +267,10 @@ func runC02(c *Ctx) {
 						// (half of them also carry tags inside the nats section, as version-2 tooling writes them)
 						if (len(ktop)+len(knats)+len(ir))%2 == 0 {
 							nats["tags"] = []string{"tag-in-nats"}
+						}
+						// (... and, every other one, the members of a version-2 activation body: a granted subject and an import kind)
+						if (len(ktop)+len(ir))%2 == 1 {
+							nats["kind"], nats["subject"] = []string{"stream", "service"}[len(knats)%2], "granted.subject.>"
 						}
 						m["nats"] = nats
 						pj, _ := json.Marshal(m)
@@ -473,6 +505,26 @@ func runC05(c *Ctx) {
 			}
 		}
 	}
+	// the same version gate on payloads that carry what a claim of the kind really carries (limits with tiers, exports,
+	// permissions, signing keys, a granted subject): content does not excuse a version
+	payloadRich = true
+	for _, ver := range []interface{}{nil, -1, 0, 1, 2, 3, -2147483648, int64(1) << 40} {
+		for _, kind := range []string{"operator", "account", "user", "activation"} {
+			for _, placement := range []string{"top", "nats"} {
+				for _, layout := range []string{"v1", "v2"} {
+					for _, hdr := range []string{hdrV1, hdrV2} {
+						s := kr.by[signerFor[kind]]
+						ft := forge(hdr, payload(kind, placement, ver, s.pub, kr.by["account"].pub), layout, s)
+						ft.Note = fmt.Sprintf("rich payload version=%v kind=%q placement=%s", ver, kind, placement)
+						_, o := processToken(c, w, ft)
+						distinct[fmt.Sprint("rich", ver, kind, placement, layout, hdr == hdrV1, o.Accepted, o.Generic)] = true
+						c.count("rich_payload_version_gate")
+					}
+				}
+			}
+		}
+	}
+	payloadRich = false
 	// every single-bit change of every byte of the accepted type and algorithm spellings (control characters,
 	// punctuation and digits that differ from the expected byte in one bit, the case bit included)
 	for _, field := range []string{"typ", "alg"} {
